@@ -159,6 +159,7 @@ class Program:
             for c in m.classes.values():
                 c.bases = [self.resolve_class(m, b) or self._base_name(m, b) for b in c.node.bases]
         self._summaries = {}
+        self.record_field_names = {}    # (class, field) -> component names of a record-valued field
         self.closures = {}          # site -> nested function definition + defining scope
 
     def _base_name(self, m, b):
@@ -441,6 +442,19 @@ def _is_none(a):
     return None
 
 
+def _is_bool(c):
+    """The term is a truth value by construction (comparison, negation, connective of such, True/False)."""
+    if not (isinstance(c, tuple) and c):
+        return False
+    if c[0] == "const":
+        return len(c) == 2 and isinstance(c[1], bool)
+    if c[0] in ("cmp", "not"):
+        return True
+    if c[0] in ("and", "or"):
+        return all(_is_bool(x) for x in c[1])
+    return False
+
+
 def negate_const(c):
     if isinstance(c, tuple) and c and c[0] == "const" and isinstance(c[1], bool):
         return ("const", not c[1])
@@ -476,6 +490,17 @@ def gate(cond, a, b):
     if isinstance(cond, tuple) and cond:
         if cond[0] == "const" and len(cond) == 2 and isinstance(cond[1], bool):
             return a if cond[1] else b
+        if _is_bool(a) and _is_bool(b) and cond[0] not in ("const",):
+            # a selection between truth values is a propositional formula
+            T, F = ("const", True), ("const", False)
+            if a == T:
+                return cond if b == F else ("or", (cond, b))
+            if a == F:
+                return negate(cond) if b == T else ("and", (negate(cond), b))
+            if b == T:
+                return ("or", (negate(cond), a))
+            if b == F:
+                return ("and", (cond, a))
         if cond[0] == "not":
             return gate(cond[1], b, a)
         if cond[0] == "cmp" and cond[1] in _NEG_OPS:
@@ -556,6 +581,18 @@ def attr_of(v, name):
             if a[0] != "attr" or b[0] != "attr":
                 return gate(v[1], a, b)
     return ("attr", v, name)
+
+
+def record_names(v):
+    """Component names of a record display, looked up through selections."""
+    while isinstance(v, tuple) and v and v[0] == "gate":
+        a = record_names(v[2])
+        if a:
+            return a
+        v = v[3]
+    if isinstance(v, tuple) and len(v) == 3 and v[0] == "tuple" and isinstance(v[2], tuple) and v[2][:1] == ("names",):
+        return v[2][1:]
+    return None
 
 
 def assume(term, facts):
@@ -745,6 +782,8 @@ class Summariser:
         self.exits = []             # [(branch facts, field state)] at every `return` of this function
         self.loop_marks = []        # [(len(facts) at loop entry, [jump snapshots])]
         self.self_name = None
+        self.on_yield = None        # consumer callback while a generator body is run for its `for` loop / `with`
+        self.loop_iters = {}        # loop id -> iterated term (for comprehensions over generators)
         args = fn.args
         names = [a.arg for a in args.posonlyargs + args.args]
         decos = [ast.unparse(d) for d in fn.decorator_list]
@@ -769,12 +808,41 @@ class Summariser:
 
     def field(self, name):
         if name not in self.fields:
-            self.fields[name] = ("field0", name)
+            names = self._record_names(name)
+            if names:
+                # a field that holds an immutable record is the display of its components
+                self.fields[name] = ("tuple", tuple(("field0", f"{name}.{n}") for n in names), ("names",) + tuple(names))
+            else:
+                self.fields[name] = ("field0", name)
         return assume(self.fields[name], self.facts) if self.facts else self.fields[name]
 
+    def _record_names(self, name):
+        """Component names if the constructor leaves an immutable record (NamedTuple) in this field."""
+        if self.cls is None:
+            return None
+        key = (self.cls.qual, name)
+        cache = self.prog.record_field_names
+        if key not in cache:
+            c, init = self.prog.find_method(self.cls, "__init__")
+            if init is not None and init in self.fnstack:
+                return None             # inside the constructor itself: nothing is known yet
+            cache[key] = None
+            if init is not None and \
+                    any(isinstance(n, ast.Attribute) and n.attr == name and isinstance(n.ctx, ast.Store) for n in ast.walk(init)):
+                try:
+                    fs = self.prog.summarise(self.cls, "__init__").fields
+                except Unsupported:
+                    fs = {}
+                comps = [k[len(name) + 1:] for k in fs if k.startswith(name + ".")]
+                if comps and name not in fs:
+                    cache[key] = tuple(comps)
+        return cache[key]
+
     def is_self(self, e):
-        return isinstance(e, ast.Name) and self.self_name is not None and e.id == self.self_name \
-            and not self.is_classmethod
+        if isinstance(e, ast.Name) and self.self_name is not None and e.id == self.self_name and not self.is_classmethod:
+            return e.id not in self.env or self.env[e.id] == ("self",)
+        # the instance handed to a helper function under another name
+        return isinstance(e, ast.Name) and self.cls is not None and self.env.get(e.id) == ("self",)
 
     def exit_fields(self, term):
         """Field state at function exit: the fall-through state merged (gated) with the states at
@@ -805,6 +873,12 @@ class Summariser:
         if not term and ret is not None:
             s.ret = ret
         s.fields, s.env = self.exit_fields(term), self.env
+        for k, v in list(s.fields.items()):
+            names = record_names(v)
+            if names:
+                del s.fields[k]
+                for n in names:
+                    s.fields[f"{k}.{n}"] = attr_of(v, n)
         s.module, s.cls, s.fn, s.owner = self.module, self.cls, self.fn, self.owner
         return s
 
@@ -899,6 +973,12 @@ class Summariser:
                                                dict(self.env), dict(self.fields)))
                 return events, True, None
             if isinstance(st, ast.With):
+                done = self._with_contextmanager(st, events) if len(st.items) == 1 else None
+                if done is not None:
+                    term, ret = done
+                    if term:
+                        return events, True, ret
+                    continue
                 items = tuple(self.expr(item.context_expr, events) for item in st.items)
                 for item in st.items:
                     if item.optional_vars is not None:
@@ -929,6 +1009,12 @@ class Summariser:
     def stmt(self, st, events):
         if isinstance(st, ast.Expr):
             if isinstance(st.value, ast.Constant):
+                return
+            if isinstance(st.value, ast.Yield):
+                if self.on_yield is None:
+                    raise Unsupported(f"yield at {self.module.path}:{st.lineno}")
+                val = self.expr(st.value.value, events) if st.value.value is not None else ("const", None)
+                self.on_yield(self, val, events, st)
                 return
             self.expr(st.value, events)
         elif isinstance(st, ast.Assign):
@@ -969,6 +1055,16 @@ class Summariser:
         if isinstance(target, ast.Name):
             self.env[target.id] = val
         elif isinstance(target, ast.Attribute) and self.is_self(target.value):
+            names = record_names(val)
+            if names and aug is None:
+                # a record-valued field is written component by component (unchanged components are not writes)
+                old = self.field(target.attr)
+                for n in names:
+                    new_c = attr_of(val, n)
+                    if record_names(old) != names or attr_of(old, n) != new_c:
+                        events.append(Store(f"{target.attr}.{n}", new_c, st.lineno, None))
+                self.fields[target.attr] = val
+                return
             self.fields[target.attr] = val
             events.append(Store(target.attr, val, st.lineno, aug))
         elif isinstance(target, ast.Subscript):
@@ -1018,8 +1114,12 @@ class Summariser:
         is_while = isinstance(st, ast.While)
         lid = self.ids.next()
         elem_val = ("elem", lid)
+        if not is_while and isinstance(st.iter, ast.Call) and not st.orelse and self._generator_loop(st, events):
+            return
         if not is_while:
             it = self.expr(st.iter, events)
+            if self._unrollable(st, it):
+                return self.unroll(st, it, events)
             # for x in (f(y) for y in ys): ...   is   for y in ys: x = f(y); ...   when f(y) has no effects
             while isinstance(st.iter, (ast.GeneratorExp, ast.ListComp)) and \
                     it[0] == "comp" and it[1] in ("gen", "list") and it[4] is None and not it[6] and it[5][0] != "flat" \
@@ -1068,6 +1168,7 @@ class Summariser:
         if term:
             # every path of the body jumps: continue with the state of the last snapshot set
             self.env, self.fields = dict(jumps[-1][2]), dict(jumps[-1][3])
+        self.loop_iters[lid] = it
         events.append(Loop(lid, it, "" if is_while else ast.unparse(st.target), ev, carried, st.lineno, False))
         for n in names:
             if n in carried_n:
@@ -1077,6 +1178,102 @@ class Summariser:
             self.fields[f] = ("eta", lid, "self." + f)
         if st.orelse:
             raise Unsupported(f"for-else at {self.module.path}:{st.lineno}")
+
+    def _with_contextmanager(self, st, events):
+        """`with cm(...) as v: body` for a package function decorated with contextlib.contextmanager that
+        yields exactly once at the top level of its body (no try around the yield): the code before the
+        yield, the block, the code after the yield -- the latter only when the block ends normally."""
+        item = st.items[0]
+        call = item.context_expr
+        if not isinstance(call, ast.Call):
+            return None
+        target = self._callee_def(call)
+        if target is None:
+            return None
+        c, module, fn, is_method = target
+        if not any(ast.unparse(d) in ("contextmanager", "contextlib.contextmanager") for d in fn.decorator_list):
+            return None
+        ys = self._yields(fn)
+        top = [b for b in fn.body if isinstance(b, ast.Expr) and isinstance(b.value, ast.Yield)]
+        if len(ys) != 1 or len(top) != 1 or top[0].value is not ys[0]:
+            return None
+        state = {}
+
+        def consumer(val, gen, yst):
+            if item.optional_vars is not None:
+                self.assign(item.optional_vars, val, [], st)
+            ev, term, ret = self.block(st.body)
+            state["term"], state["ret"] = term, ret
+            return [With((val,), ev, st.lineno)]
+        res = self.run_generator(call, events, consumer, split_at=lambda f: top[0], stop=lambda: state.get("term"))
+        if res is None:
+            return None
+        return bool(state.get("term")), state.get("ret")
+
+    def _generator_loop(self, st, events):
+        """`for v in gen(...): body` with gen a package generator function: the body runs at each yield."""
+        if any(isinstance(n, (ast.Break, ast.Continue, ast.Return, ast.Yield, ast.YieldFrom))
+               for b in st.body for n in ast.walk(b)):
+            return False
+        names, fields = self.assigned_names(st.body)
+        targets = {n.id for n in ast.walk(st.target) if isinstance(n, ast.Name)}
+        if fields or self.called_self_methods(st.body) or ((names - targets) & set(self.env)):
+            return False                # loop-carried consumer state: the generator's loops would not see it
+
+        def consumer(val, gen, yst):
+            self.bind_target(st.target, val)
+            ev, term, ret = self.block(st.body)
+            if term:
+                raise Unsupported(f"terminating loop body at {self.module.path}:{st.lineno}")
+            return ev
+        return self.run_generator(st.iter, events, consumer) is not None
+
+    @staticmethod
+    def _display_items(it, literal_list=False):
+        if it[0] == "tuple":
+            return it[1]
+        # ("new", site, "list", items) is both `[a, b]` and `list(a)`: only the literal in the loop header counts
+        if literal_list and it[0] == "new" and it[2] == "list" and \
+                not any(isinstance(x, tuple) and x and x[0] == "star" for x in it[3]):
+            return it[3]
+        return None
+
+    def _unrollable(self, st, it):
+        """A loop over a tuple / list display (or a selection between displays) of at most 4 items whose
+        body has no jump: it is the body repeated once per item."""
+        def ok(t):
+            if t[0] == "gate":
+                return ok(t[2]) and ok(t[3])
+            items = self._display_items(t, isinstance(st.iter, ast.List))
+            return items is not None and len(items) <= 4
+        if not ok(it) or st.orelse:
+            return False
+        return not any(isinstance(n, (ast.Break, ast.Continue, ast.Return, ast.Raise, ast.Yield, ast.YieldFrom))
+                       for b in st.body for n in ast.walk(b))
+
+    def unroll(self, st, it, events):
+        if it[0] == "gate":
+            cond = it[1]
+            env0, f0 = dict(self.env), dict(self.fields)
+            ev_t, ev_e = [], []
+            self.facts.append(cond)
+            self.unroll(st, it[2], ev_t)
+            self.facts.pop()
+            env_t, f_t = self.env, self.fields
+            self.env, self.fields = dict(env0), dict(f0)
+            self.facts.append(negate(cond))
+            self.unroll(st, it[3], ev_e)
+            self.facts.pop()
+            events.append(If(cond, ev_t, ev_e, st.lineno, False))
+            self.env = self.merge(cond, env_t, self.env)
+            self.fields = self.merge(cond, f_t, self.fields, field=True)
+            return
+        for item in self._display_items(it, isinstance(st.iter, ast.List)):
+            self.bind_target(st.target, item)
+            ev, term, ret = self.block(st.body)
+            if term:
+                raise Unsupported(f"terminating loop body at {self.module.path}:{st.lineno}")
+            events.extend(ev)
 
     def bind_target(self, target, val):
         if isinstance(target, ast.Name):
@@ -1162,7 +1359,8 @@ class Summariser:
                 m, node = r[1]
                 if isinstance(node, ast.Constant):
                     return ("const", node.value)
-                return ("global", f"{m.name}.{e.id}")
+                v = self._const_term(m, node)
+                return v if v is not None else ("global", f"{m.name}.{e.id}")
             if r and r[0] == "class":
                 return ("global", r[1].qual)
             if r and r[0] == "func":
@@ -1226,6 +1424,17 @@ class Summariser:
             base, idx = self._expr(e.value, events), self._expr(e.slice, events)
             if base[0] == "tuple" and idx[0] == "const" and isinstance(idx[1], int) and 0 <= idx[1] < len(base[1]):
                 return base[1][idx[1]]
+            if base[0] == "constdict":
+                table = {k[1]: v for k, v in base[1]}
+                if idx[0] == "const":
+                    try:
+                        if idx[1] in table:
+                            return table[idx[1]]
+                    except TypeError:
+                        pass
+                elif idx[0] in ("cmp", "not") and set(table) == {True, False} and len(base[1]) == 2 and \
+                        all(type(k[1]) is bool for k, _ in base[1]):
+                    return gate(idx, table[True], table[False])     # a two-way dispatch on a boolean
             return ("sub", base, idx)
         if isinstance(e, ast.Slice):
             return ("slice", self._expr(e.lower, events), self._expr(e.upper, events), self._expr(e.step, events))
@@ -1277,10 +1486,44 @@ class Summariser:
     def comp(self, e, events):
         saved = dict(self.env)
         old_loops = self.loops
+        if len(e.generators) == 1 and isinstance(e.generators[0].iter, ast.Call) and not e.generators[0].ifs \
+                and not isinstance(e, ast.DictComp):
+            done = self._comp_over_generator(e, events)
+            if done is not None:
+                self.loops = old_loops
+                self.env = saved
+                return done
         result = self._comp_clause(e, 0, events)
         self.loops = old_loops
         self.env = saved
         return result
+
+    def _comp_over_generator(self, e, events):
+        """[f(v) for v in gen(...)]: f(v) is evaluated at each yield of the generator; the result is the
+        comprehension over the generator's loop (one yield inside one loop) or the display of the values."""
+        g = e.generators[0]
+        got = []
+
+        def consumer(val, gen, yst):
+            self.bind_target(g.target, val)
+            ev = []
+            v = self._expr(e.elt, ev)
+            got.append((v, tuple(gen.loops[len(self.loops_at_comp):]), gen))
+            return ev
+        self.loops_at_comp = self.loops
+        res = self.run_generator(g.iter, events, consumer)
+        if res is None:
+            return None
+        sub, inl = res
+        kind = {ast.ListComp: "list", ast.SetComp: "set", ast.GeneratorExp: "gen"}[type(e)]
+        if all(not loops for _, loops, _ in got):
+            if kind == "gen":
+                kind = "list"
+            return ("new", self.site(e), kind, tuple(v for v, _, _ in got))
+        if len(got) == 1 and len(got[0][1]) == 1 and got[0][1][0] in got[0][2].loop_iters:
+            v, (lid,), gen = got[0]
+            return norm_comp(("comp", kind, lid, gen.loop_iters[lid], None, v, ()))
+        raise Unsupported(f"comprehension over generator with several yields at {self.module.path}:{e.lineno}")
 
     def _comp_clause(self, e, gi, events):
         g = e.generators[gi]
@@ -1348,6 +1591,10 @@ class Summariser:
                 return ("op", SET_ALGEBRA[f.attr], recv, args[0])
             if f.attr == "__getitem__" and len(args) == 1 and not kwargs:
                 return ("sub", recv, args[0])
+            if f.attr == "_replace" and not args and record_names(recv) and recv[0] == "tuple" and \
+                    all(k in recv[2][1:] for k, _ in kwargs):
+                new = dict(kwargs)
+                return ("tuple", tuple(new.get(n, v) for n, v in zip(recv[2][1:], recv[1])), recv[2])
             res = ("res", self.site(e), f"self.{f.value.attr}.{f.attr}", args, kwargs)
             events.append(Call(f"self.{f.value.attr}", f.attr, recv, args, kwargs, res, line))
             if f.attr == "copy" and not args:
@@ -1422,6 +1669,10 @@ class Summariser:
                 return ("op", SET_ALGEBRA[f.attr], recv, args[0])
             if f.attr == "__getitem__" and len(args) == 1 and not kwargs:
                 return ("sub", recv, args[0])
+            if f.attr == "_replace" and not args and record_names(recv) and recv[0] == "tuple" and \
+                    all(k in recv[2][1:] for k, _ in kwargs):
+                new = dict(kwargs)
+                return ("tuple", tuple(new.get(n, v) for n, v in zip(recv[2][1:], recv[1])), recv[2])
             res = ("res", self.site(e), "." + f.attr, (recv,) + args, kwargs)
             if f.attr in MUTATORS:
                 events.append(Mut(recv, f.attr, args, kwargs, res, line))
@@ -1458,6 +1709,127 @@ class Summariser:
         res = ("new", self.site(e), cls.qual, args + tuple(("kw",) + kv for kv in kwargs))
         events.append(Construct(cls.qual, args, kwargs, res, e.lineno))
         return res
+
+    def _callee_def(self, call):
+        """(class-or-None, module, FunctionDef, is_method) of a call to a package function / self method."""
+        f = call.func
+        if isinstance(f, ast.Attribute) and self.is_self(f.value) and self.cls is not None:
+            c, m = self.prog.find_method(self.cls, f.attr)
+            if m is not None:
+                return c, c.module, m, True
+        if isinstance(f, ast.Name) and f.id not in self.env:
+            r = self.prog.resolve_name(self.module, f.id)
+            if r and r[0] == "func":
+                return None, r[1][0], r[1][1], False
+        if isinstance(f, ast.Attribute):
+            d = self.prog.dotted_of(self.module, f)
+            if d:
+                r = self.prog.resolve_dotted(d)
+                if r[0] == "func":
+                    return None, r[1][0], r[1][1], False
+        return None
+
+    @staticmethod
+    def _yields(fn):
+        """Yield statements of the function itself (not of nested definitions)."""
+        out, todo = [], list(fn.body)
+        while todo:
+            n = todo.pop()
+            if isinstance(n, (ast.FunctionDef, ast.AsyncFunctionDef, ast.Lambda, ast.ClassDef)):
+                continue
+            if isinstance(n, (ast.Yield, ast.YieldFrom)):
+                out.append(n)
+            todo.extend(ast.iter_child_nodes(n))
+        return out
+
+    def _bind_args(self, fn, args, kwargs, is_method, call_node):
+        a = fn.args
+        names = [x.arg for x in a.posonlyargs + a.args]
+        decos = [ast.unparse(d) for d in fn.decorator_list]
+        if is_method and "staticmethod" not in decos:
+            names = names[1:]
+        params = {}
+        pos = self._expand_star(args, len(names))
+        for n, v in zip(names, pos):
+            params[n] = v
+        if len(pos) > len(names) and a.vararg:
+            params["*"] = ("tuple", tuple(pos[len(names):]))
+        kwnames = set(names) | {x.arg for x in a.kwonlyargs}
+        extra = []
+        for n, v in dict(kwargs).items():
+            if n in kwnames:
+                params[n] = v
+            else:
+                extra.append((n, v))
+        if extra and a.kwarg:
+            params["**"] = ("new", self.site(call_node), "dict", tuple(("kv", ("const", n), v) for n, v in extra))
+        for n, dflt in zip(names[len(names) - len(a.defaults):], a.defaults):
+            if n not in params:
+                params[n] = self._expr_const(dflt)
+        for kw, dflt in zip(a.kwonlyargs, a.kw_defaults):
+            if kw.arg not in params and dflt is not None:
+                params[kw.arg] = self._expr_const(dflt)
+        return params
+
+    def run_generator(self, call, events, consumer, split_at=None, stop=None):
+        """Run the body of the generator function called by `call`; at every `yield`, `consumer(value)`
+        (which returns the consumer's events) runs in this summariser, inside the generator's loops and
+        branch facts.  Returns (sub summariser, Inlined event) or None if `call` is not such a call."""
+        target = self._callee_def(call)
+        if target is None:
+            return None
+        c, module, fn, is_method = target
+        ys = self._yields(fn)
+        if not ys or any(isinstance(y, ast.YieldFrom) for y in ys) or fn in self.fnstack or self.depth >= self.MAX_DEPTH:
+            return None
+        parents = {}
+        for n in ast.walk(fn):
+            for ch in ast.iter_child_nodes(n):
+                parents[ch] = n
+        for y in ys:
+            if not isinstance(parents.get(y), ast.Expr):
+                return None                                  # `x = yield ...`: values are sent in
+            p = parents.get(y)
+            while p is not None and p is not fn:
+                if isinstance(p, (ast.Try, ast.While, ast.With)):
+                    return None
+                p = parents.get(p)
+        args = tuple(self._expr(a, events) for a in call.args)
+        kwargs = tuple((k.arg if k.arg is not None else "**", self._expr(k.value, events)) for k in call.keywords)
+        params = self._bind_args(fn, args, kwargs, is_method, call)
+        sub = Summariser(self.prog, module, self.cls if is_method else None, fn, params=params, fields=self.fields,
+                         depth=self.depth + 1, ids=self.ids,
+                         stack=self.stack + (f"{call.lineno}:{call.col_offset}",), loops=self.loops,
+                         owner=c, fnstack=self.fnstack)
+        if not is_method and any(v == ("self",) for v in params.values()):
+            sub.cls = self.cls
+        sub.facts = list(self.facts)
+        sub.base_facts = len(sub.facts)
+
+        def on_yield(gen, val, gen_events, st):
+            saved = (self.loops, self.facts, self.loop_marks)
+            self.loops, self.facts, self.loop_marks = gen.loops, list(gen.facts), []
+            self.fields = gen.fields
+            try:
+                gen_events.extend(consumer(val, gen, st))
+            finally:
+                gen.fields = self.fields
+                self.loops, self.facts, self.loop_marks = saved
+        sub.on_yield = on_yield
+        if split_at is not None:
+            # a context manager: the statements after its single top-level yield run only if the block ended normally
+            i = fn.body.index(split_at(fn))
+            ev, term, ret = sub.block(fn.body[:i + 1])
+            if not term and not stop():
+                ev2, term, ret = sub.block(fn.body[i + 1:])
+                ev = ev + ev2
+        else:
+            ev, term, ret = sub.block(fn.body)
+        self.fields = sub.exit_fields(term)
+        inl = Inlined(f"{c.name}.{fn.name}" if c is not None else f"{module.name}.{fn.name}", ev, call.lineno, c, fn,
+                      dict(params), ("const", None))
+        events.append(inl)
+        return sub, inl
 
     def closure(self, node):
         """A nested function / lambda as a value.  It is inlined where it is called, with the variables of
@@ -1618,6 +1990,19 @@ class Summariser:
             return ("op", "-", ("const", 0), args[0])
         if d == "operator.not_" and len(args) == 1 and not kwargs:
             return negate(args[0])
+        if d == "itertools.compress" and len(args) == 2 and not kwargs and args[0][0] == "tuple" and \
+                args[1][0] == "tuple" and len(args[0]) == 2 and len(args[1]) == 2 and len(args[1][1]) <= len(args[0][1]):
+            # selection of the items of a display by a display of flags: a choice between sub-displays
+            def pick(i, chosen):
+                if i == len(args[1][1]):
+                    return ("tuple", tuple(chosen))
+                sel = args[1][1][i]
+                known = const_truth(sel)
+                if known is not None:
+                    return pick(i + 1, chosen + [args[0][1][i]] if known else chosen)
+                return gate(sel, pick(i + 1, chosen + [args[0][1][i]]), pick(i + 1, chosen))
+            if sum(1 for x in args[1][1] if const_truth(x) is None) <= 3:
+                return pick(0, [])
         if d == "functools.partial" and args and not any(k == "**" for k, _ in kwargs) and \
                 not any(isinstance(a, tuple) and a and a[0] == "star" for a in args):
             return ("partial", args[0], args[1:], kwargs)
@@ -1795,6 +2180,8 @@ class Summariser:
         sub = Summariser(self.prog, m, None, node, params=params, fields=self.fields, depth=self.depth + 1,
                          ids=self.ids, stack=self.stack + (f"{call_node.lineno}:{call_node.col_offset}",),
                          loops=self.loops, owner=None, fnstack=self.fnstack)
+        if any(v == ("self",) for v in params.values()):
+            sub.cls = self.cls          # the helper works on this very instance: its attributes are the fields
         sub.facts = list(self.facts)
         sub.base_facts = len(sub.facts)
         ev, term, ret = sub.block(node.body)
@@ -1802,6 +2189,60 @@ class Summariser:
         rv = ret if ret is not None else ("const", None)
         events.append(Inlined(q, ev, call_node.lineno, None, node, dict(params), rv))
         return rv
+
+    def _const_term(self, m, node, depth=0):
+        """Value of a module-level constant expression built from literals, immutable records, functions /
+        classes and operator helpers (lookup tables, sentinels); None if it is anything else."""
+        if depth > 4:
+            return None
+        if isinstance(node, ast.Constant):
+            return ("const", node.value)
+        if isinstance(node, ast.UnaryOp) and isinstance(node.op, ast.USub) and isinstance(node.operand, ast.Constant):
+            return ("const", -node.operand.value)
+        if isinstance(node, ast.Tuple):
+            items = [self._const_term(m, x, depth + 1) for x in node.elts]
+            return ("tuple", tuple(items)) if all(i is not None for i in items) else None
+        if isinstance(node, ast.Name):
+            r = self.prog.resolve_name(m, node.id)
+            if r is None:
+                return None
+            if r[0] == "const":
+                return self._const_term(r[1][0], r[1][1], depth + 1)
+            if r[0] == "class":
+                return ("global", r[1].qual)
+            if r[0] == "func":
+                return ("global", f"{r[1][0].name}.{r[1][1].name}")
+            if r[0] == "ext":
+                return ("global", r[1])
+            return None
+        if isinstance(node, ast.Attribute):
+            d = self.prog.dotted_of(m, node)
+            return ("global", d) if d is not None else None
+        if isinstance(node, ast.Dict) and all(k is not None for k in node.keys):
+            keys = [self._const_term(m, k, depth + 1) for k in node.keys]
+            vals = [self._const_term(m, v, depth + 1) for v in node.values]
+            if all(k is not None and k[0] == "const" for k in keys) and all(v is not None for v in vals):
+                return ("constdict", tuple(zip(keys, vals)))
+            return None
+        if isinstance(node, ast.Call) and not any(isinstance(a, ast.Starred) for a in node.args) and \
+                all(k.arg is not None for k in node.keywords):
+            args = [self._const_term(m, a, depth + 1) for a in node.args]
+            kw = [(k.arg, self._const_term(m, k.value, depth + 1)) for k in node.keywords]
+            if any(a is None for a in args) or any(v is None for _, v in kw):
+                return None
+            cls = self.prog.resolve_class(m, node.func)
+            if cls is not None and cls.record_fields is not None:
+                v = self._construct(cls, tuple(args), tuple(kw), [], node)
+                return v if v[0] == "tuple" else None
+            d = self.prog.dotted_of(m, node.func) if isinstance(node.func, (ast.Attribute, ast.Name)) else None
+            if d is None and isinstance(node.func, ast.Name):
+                r = self.prog.resolve_name(m, node.func.id)
+                d = r[1] if r and r[0] == "ext" else None
+            if d in ("operator.attrgetter", "operator.itemgetter", "operator.methodcaller", "functools.partial"):
+                ev = []
+                v = self._dotted_call(d, tuple(args), tuple(kw), ev, node)
+                return v if not ev and v[0] in ("getter", "methodcaller", "partial") else None
+        return None
 
     def _expr_const(self, e):
         if isinstance(e, ast.Constant):
